@@ -128,6 +128,28 @@ def _sites(fn):
 
     for st in fn.body:
         walk(st, [])
+    guarded = _guarded_ints(fn)
+    out = [(ln, ("int-guarded" if kind == "int" and ln in guarded else kind), c, hs) for ln, kind, c, hs in out]
+    return out
+
+
+def _guarded_ints(fn):
+    """line numbers of `x = int(x, base)` statements whose preceding sibling statement is `if <test on x>: raise ...`
+    (the validation that makes the conversion total)"""
+    out = set()
+    for node in ast.walk(fn):
+        for f in ("body", "orelse", "finalbody"):
+            blk = getattr(node, f, None)
+            if not isinstance(blk, list):
+                continue
+            for prev, st in zip(blk, blk[1:]):
+                if not (isinstance(prev, ast.If) and prev.body and isinstance(prev.body[-1], ast.Raise)):
+                    continue
+                names = {n.id for n in ast.walk(prev.test) if isinstance(n, ast.Name)}
+                for c in ast.walk(st):
+                    if isinstance(c, ast.Call) and isinstance(c.func, ast.Name) and c.func.id == "int" and c.args \
+                            and isinstance(c.args[0], ast.Name) and c.args[0].id in names:
+                        out.add(c.lineno)
     return out
 
 
@@ -269,6 +291,13 @@ def extract():
                 walk(st, [])
         loops.append((f"{cls}.{fn}", callee, sorted(hs)))
 
+    rsites = []
+    for mod, cls, fn in [("clienting", "Client", "redirect"), ("httping", None, "normalizeHostPort")]:
+        f = _find(trees[mod], cls, fn)
+        if f is not None:
+            for ln, kind, c, hs in _sites(f):
+                if c != "reraise":
+                    rsites.append((f"{cls or mod}.{fn}", kind, c, hs))
     known = set(cn)
 
     def cls_ok(c):
@@ -304,6 +333,10 @@ def extract():
     L.append("def raiseSites : List (String × String × String × List String) := [\n  " + ",\n  ".join(
         f"({_lean_str(fn)}, {_lean_str(k)}, {_lean_str(cls_ok(c))}, [" + ", ".join(_lean_str(cls_ok(h)) for h in hs) + "])"
         for fn, k, c, hs in sites) + "]")
+    L.append("/-- raise sites of Client.redirect and normalizeHostPort (called from Client.serviceResponse) -/")
+    L.append("def redirectSites : List (String × String × String × List String) := [\n  " + ",\n  ".join(
+        f"({_lean_str(fn)}, {_lean_str(k)}, {_lean_str(cls_ok(c))}, [" + ", ".join(_lean_str(cls_ok(h)) for h in hs) + "])"
+        for fn, k, c, hs in rsites) + "]")
     L.append("/-- classes named by the except clauses of Parsent.parseMessage around parseHead / parseBody -/")
     L.append("def messageHandlers : List String := [" + ", ".join(_lean_str(cls_ok(c)) for c in wrap) + "]")
     L.append("/-- (service loop, callee, handler classes around the call) -/")
